@@ -115,16 +115,29 @@ def relpath(s):
 def gen_case(r, k, kind):
     """kind 'emu': valid for ovniemu (thread life-cycle events), run through ovnidump and ovniemu;
        kind 'dump': arbitrary events with a 4-byte id payload, ovnidump -x only."""
-    hosts = r.shuffle(["h1", "h2", "h3", "nodeA"])[: r.range(1, 3)]
+    # host names that are prefixes of one another, and loom suffixes that differ only in leading zeros (both legal:
+    # the offset table is matched by the exact host name, and streams are ordered by the exact path)
+    hosts = r.shuffle(["h1", "h10", "h2", "h3", "nodeA", "node1", "node10"])[: r.range(1, 3)]
+    if r.chance(1, 5):
+        hosts = r.choice([["node10", "node1"], ["h10", "h1"], ["h1", "h10"]])
     looms = []
     for h in hosts:
-        for suf in r.shuffle(["a", "b", "0"])[: r.choice([1, 1, 1, 2])]:
+        for suf in r.shuffle(["a", "b", "0", "1", "01", "001"])[: r.choice([1, 1, 1, 2, 3])]:
             looms.append("%s.%s" % (h, suf))
     if r.chance(1, 6):
         looms.append(hosts[0])            # loom name without a dot: hostname = whole name
+    tie_family = (kind == "dump") and r.chance(1, 6)      # (the emu decider names rows by tid: dump cases only)
+    if tie_family:
+        # looms whose names differ only in leading zeros of a number, each with a stream of the same pid and tid: the
+        # paths are distinct, but any "natural" (numeric) comparison of paths ties them
+        hosts = hosts[:1]
+        looms = ["%s.%s" % (hosts[0], x) for x in r.shuffle(["1", "01", "001"])[: r.range(2, 3)]]
     nstreams = r.choice([1, 2, 2, 3, 3, 4, 5, 6, 8, 10, 12])
     flavour = r.below(100)
     sloom = [r.choice(looms) for _ in range(nstreams)]
+    if tie_family:
+        nstreams = len(looms)
+        sloom = list(looms)
     looms = [l for l in looms if l in sloom]
     hosts = [h for h in hosts if any(hostname(l) == h for l in looms)]   # a table entry without loom is refused
     # offsets per host
@@ -148,7 +161,11 @@ def gen_case(r, k, kind):
         n = r.choice([0, 0, 1, 2, 2, 3, 3, 4, 5, 6, 8, 10, 15, 25, 40])
         cor = sorted(base + r.range(0, span) for _ in range(n))
         pid = 100 * (looms.index(loom) + 1) + r.below(2)
-        streams.append({"loom": loom, "pid": pid, "tid": tids[i], "clocks": [c - off_of(loom) for c in cor]})
+        if tie_family:
+            pid = 100
+            n = max(n, 2)
+            cor = sorted(base + r.range(0, min(span, 2)) for _ in range(n))      # many equal clocks across the looms
+        streams.append({"loom": loom, "pid": pid, "tid": tids[0] if tie_family else tids[i], "clocks": [c - off_of(loom) for c in cor]})
     expect = "valid"
     cand = [s for s in streams if len(s["clocks"]) >= 2]
     if 10 <= flavour < 20 and cand:        # one stream goes backwards
